@@ -29,14 +29,18 @@ S_VALUES = [0.0, 0.5, 1.0, 2.0]
 M_VALUES = [0.0, 1.0, 2.0]
 
 FIT_NAMES = {}
+IND_NAMES = {}
 
 
 def _preamble():
+    """constants for the fitness alphabet and for every (uid, fitness) pair the generators use:
+    a population is then a list of identifiers, which coqc parses several times faster"""
     lines = ['Definition I (u : nat) (f : fit) := Build_ind u f.',
              'Definition S1 (q : Q) := Single (Some q) (@nil Q).',
              'Definition SN := Single (@None Q) (@nil Q).',
              'Definition M2 (a b : Q) := Multi [a; b] [(1#1)%Q; (1#1)%Q].',
              'Definition EP := Build_eparams.', 'Definition RP := Build_rparams.', 'Definition RC := Build_rcall.']
+    FIT_NAMES[('S', None)] = 'SN'
     for i, v in enumerate(S_VALUES):
         FIT_NAMES[('S', v)] = 'FS%d' % i
         lines.append('Definition FS%d := S1 %s.' % (i, c_Q(v)))
@@ -44,10 +48,21 @@ def _preamble():
         for j, b in enumerate(M_VALUES):
             FIT_NAMES[('M', a, b)] = 'FM%d%d' % (i, j)
             lines.append('Definition FM%d%d := M2 %s %s.' % (i, j, c_Q(a), c_Q(b)))
-    return '\n'.join(lines) + '\n'
+    common_part = '\n'.join(lines) + '\n'
+    small, big = [], []
+    for u in list(range(0, 30)) + list(range(100, 115)):
+        for key, fname in FIT_NAMES.items():
+            IND_NAMES[(u, key)] = 'a%d_%s' % (u, fname)
+            small.append('Definition a%d_%s := I %d %s.' % (u, fname, u, fname))
+    for u in range(30, 100):
+        for key, fname in FIT_NAMES.items():
+            if key[0] == 'S':
+                IND_NAMES[(u, key)] = 'a%d_%s' % (u, fname)
+                big.append('Definition a%d_%s := I %d %s.' % (u, fname, u, fname))
+    return common_part + '\n'.join(small) + '\n', '\n'.join(big) + '\n'
 
 
-PRE = _preamble()
+PRE, PRE_BIG = _preamble()
 
 SHARD = 1200   # cases per generated Coq file (coqc start-up dominates small shards)
 KNOWN_HEAD = 'C16.replace_worst.head_dropped_when_all_new_better'
@@ -83,6 +98,9 @@ def fit_coq(fd):
 
 def ind_coq(d):
     assert isinstance(d[0], int) and 0 <= d[0] < 100000
+    name = IND_NAMES.get((d[0], tuple(d[1])))
+    if name:
+        return name
     return '(I %d %s)' % (d[0], fit_coq(d[1]))
 
 
@@ -587,7 +605,7 @@ def eval_reproduction(ctx, cases, group='reproduction'):
              'result': ['ret', [[0, ['S', 1.0]], [0, ['S', 1.0]]]]}
         terms.append(reproduction_coq(c, [o]))
         ctx.canaries += 1
-    res = ctx.coq_cases(group, REQ, REP_FN, terms, 2, preamble=PRE, shard=100)
+    res = ctx.coq_cases(group, REQ, REP_FN, terms, 2, preamble=PRE + PRE_BIG, shard=150)
     if canary:
         if res[-1] == (False, False):
             ctx.canaries_caught += 1
